@@ -111,3 +111,12 @@ chk("C11", "exploration", "property-based testing (Hypothesis): generated multi-
     "Search, not proof.",
     "Faked ball hardware; timers only checked for isolation; restore sampled 100 ms after ball_started.",
     "DESIGN.md §4 C11")
+chk("C10", "exploration", "property-based testing (Hypothesis): generated enable/disable/flip/game histories vs. an invariant over the platform's rule table",
+    "Generated histories of explicit enable/disable calls and events, software flips and releases, switch-hit bursts, ball "
+    "search runs, game start, drains, end, tilt and service entry run on four flipper wiring variants, three autofire "
+    "coils (one with timeout protection) and a kickback on the virtual platform; after every step the installed "
+    "switch->coil rules must equal exactly the rules the enabled devices' wiring implies (the platform raises on a "
+    "double install), the enabled flag must follow the last explicit request, and whenever no ball is in play (no game, "
+    "ball ended, tilt, service) no flipper/autofire rule is installed and no flipper coil is energised. Search, not proof.",
+    "Rule table of the virtual platform; delayed-pulse autofire rules are not available on it.",
+    "DESIGN.md §4 C10")
